@@ -6,5 +6,6 @@ CONSTANTS
   K_EDITS = 1
   MAXLEN = 40
   SEEDSEL = {"empty", "ids", "addr", "sock", "txt"}
+  TSEL = {"Isd", "Asn", "IsdAsn", "Svc", "Host", "AddrV4", "AddrV6", "AddrSvc", "Addr", "IpAddr", "SockV4", "SockV6", "SockSvc", "Sock", "SockIp", "TxtPayload", "TxtRecord"}
   GEN = FALSE
 INVARIANTS NoPanic Sound Complete Emit
